@@ -961,6 +961,17 @@ def config_call_signatures(F, tr, body, cfg_owner_substr="ServerConfig"):
                 per.append(tuple(fs))
             if any(per):
                 out.setdefault(short(c.name() or "?"), set()).add(tuple(per))
+        for blk in x.blocks:
+            if blk.get("cleanup"):
+                continue
+            for st in blk["st"]:
+                if st["s"] == "assign" and st["rv"]["k"] == "agg" and st["rv"].get("ak") == "adt" and st["rv"]["adt"].startswith("jsonrpsee"):
+                    per = []
+                    for o in st["rv"]["ops"]:
+                        lv = tr.origins(x, o)
+                        per.append(tuple(sorted({terminal_field(l)[1] for l in lv if l.kind == "field" and cfg_owner_substr in (terminal_field(l)[0] or "")})))
+                    if any(per):
+                        out.setdefault("{%s::%s}" % (st["rv"]["adt"].split("::")[-1], st["rv"].get("variant")), set()).add(tuple(zip(st["rv"]["fields"], per)))
     return out
 
 
